@@ -15,9 +15,10 @@ import (
 //
 //	{"mode":"index","dim":n,"cdims":[..],"entries":[{"coord":[..],"addr":a,"nbytes":s}..],"eof":e}
 //	   the file starts as e zero bytes; ChunkBTreeWriter(dim).AddChunkWithSize for every entry, WriteToFile with an
-//	   end-of-file allocator at e -> {"wok","werr","root","file":hex}; then ParseBTreeV1Node(root, 8, len(cdims), cdims)
+//	   end-of-file allocator at e -> {"wok","werr","root","eof","file":hex} (file and allocator end ALSO when
+//	   WriteToFile refuses); then ParseBTreeV1Node(root, 8, len(cdims), cdims)
 //	   + CollectAllChunks on those bytes -> "read":{"class":0|1,"err","entries":[{"scaled","nbytes","mask","addr"}..]}
-//	{"mode":"indexraw","file":hex,"root":a,"osz":k,"ndims":n,"cdims":[..]}
+//	{"mode":"indexraw","file":hex,"ztail":z,"root":a,"osz":k,"ndims":n,"cdims":[..]}   (z zero bytes follow file)
 //	   ParseBTreeV1Node + CollectAllChunks on the given bytes -> "read" as above (a panic is reported by runOne)
 type c01IdxEntry struct {
 	Coord  []uint64 `json:"coord"`
@@ -97,7 +98,8 @@ func c01Index(c *c01Case) (interface{}, error) {
 	al := &c01EOFAlloc{next: c.EOF}
 	root, err := w.WriteToFile(mf, al)
 	if err != nil {
-		return map[string]interface{}{"wok": false, "werr": err.Error()}, nil
+		// a refused call must leave the file and the allocator as they were: both are reported
+		return map[string]interface{}{"wok": false, "werr": err.Error(), "eof": al.next, "file": hex.EncodeToString(mf.b)}, nil
 	}
 	rd := c01ReadIndex(mf.b, root, 8, len(c.CDims), c.CDims)
 	return map[string]interface{}{"wok": true, "root": root, "eof": al.next, "file": hex.EncodeToString(mf.b), "read": rd}, nil
@@ -107,6 +109,9 @@ func c01IndexRaw(c *c01Case) (interface{}, error) {
 	file, err := hex.DecodeString(c.File)
 	if err != nil {
 		return nil, err
+	}
+	if c.ZTail > 0 {
+		file = append(file, make([]byte, c.ZTail)...)
 	}
 	rd := c01ReadIndex(file, c.Root, c.Osz, c.NDims, c.CDims)
 	return map[string]interface{}{"read": rd}, nil
